@@ -136,4 +136,7 @@ theorem shape_processAuthorizedRequest_ok : Oidc.Shapes.Shape_processAuthorizedR
 theorem text_TraefikOidc_determineExcludedURL_ok : Oidc.Shapes.Text_TraefikOidc_determineExcludedURL := by unfold Oidc.Shapes.Text_TraefikOidc_determineExcludedURL; rfl
 theorem text_TraefikOidc_VerifyJWTSignatureAndClaims_ok : Oidc.Shapes.Text_TraefikOidc_VerifyJWTSignatureAndClaims := by unfold Oidc.Shapes.Text_TraefikOidc_VerifyJWTSignatureAndClaims; rfl
 
+/-! further obligations against the regenerated program text (`Oidc/Shapes.lean`): constructor wiring and URL builders -/
+theorem text_New_ok : Oidc.Shapes.Text_New := by unfold Oidc.Shapes.Text_New; rfl
+
 end Oidc.Props.C01
